@@ -232,8 +232,12 @@ func TestVerifC12FourQField(t *testing.T) {
 				if !lib.Eq(e[:], canon) {
 					vc12Viol("non-canonical:fourq.Fp.setBigInt", "x", x, "got", e[:])
 				}
-				if ok := e.fromBytes(x); !ok || !lib.Eq(e[:], canon) {
+				// p itself (the second representation of zero) may be refused by the decoder
+				// (that is C09's concern); anything it accepts must come out canonical
+				if ok := e.fromBytes(x); ok && !lib.Eq(e[:], canon) || !ok && xv.Cmp(pm) != 0 {
 					vc12Viol("wrong-value:fourq.Fp.fromBytes", "x", x, "ok", ok, "got", e[:])
+				} else if !ok {
+					c.Inc(n + ":fp:frombytes:p-refused")
 				}
 			})
 			if pn != nil {
@@ -401,7 +405,8 @@ func TestVerifC12FourQField(t *testing.T) {
 					vc12Viol("wrong-predicate:fourq.fqSgn", "x", x, "got", g, "want", ws)
 				}
 				var e Fq
-				if ok := e.fromBytes(x); !ok || !lib.Eq(append(lib.Clone(e[0][:]), e[1][:]...), vc12FqBytes(xr)) {
+				hasP := xa[0].Cmp(pm) == 0 || xa[1].Cmp(pm) == 0
+				if ok := e.fromBytes(x); ok && !lib.Eq(append(lib.Clone(e[0][:]), e[1][:]...), vc12FqBytes(xr)) || !ok && !hasP {
 					vc12Viol("wrong-value:fourq.Fq.fromBytes", "x", x, "ok", ok)
 				}
 				e.setOne()
